@@ -24,6 +24,9 @@ import (
 	"sync/atomic"
 	"time"
 
+	gt "github.com/fullstorydev/grpchan/grpchantesting"
+	"google.golang.org/protobuf/proto"
+
 	"verif/seq/common"
 	"verif/vlib"
 )
@@ -351,6 +354,15 @@ func selfCheck() error {
 		want(len(refStream("CS", body("frame-err-binmsg-after-data")).Data) == 1 && len(refStream("SS", body("frame-err-binmsg-after-data")).Data) == 2 && len(refStream("BD", body("frame1+frame-err-binmsg-after-data")).Data) == 2, "error with a non-UTF-8 status message after data"),
 		want(refStream("BD", body("frame-err-text-after-data")).Msg == "fail: who" && refStream("SS", body("frame-err-text-after-data")).Code == 5, "error with a text status message after data"),
 	)
+	dm := func(codec, n string, m *gt.Message) bool {
+		t, got := decodeRef(codec, body(n))
+		return t == yes && proto.Equal(got, m)
+	}
+	errs = append(errs,
+		want(dm(ctJSON, "json", msgOK) && dm(ctJSON, "json-same", msgSame) && dm(ctJSON, "json-long", msgLong) && dm(ctJSON, "json-short", msgShort), "JSON size variants decode to their messages"),
+		want(dm(ctUnary, "pb", msgOK) && dm(ctUnary, "pb-same", msgSame) && dm(ctUnary, "pb-long", msgLong) && dm(ctUnary, "empty", msgShort), "protobuf size variants decode to their messages"),
+		want(len(msgSame.Payload) == len(msgOK.Payload) && !proto.Equal(msgSame, msgOK) && len(msgLong.Payload) > len(msgOK.Payload) && len(msgShort.Payload) < len(msgOK.Payload), "size variants relate to the plain message as their names say"),
+	)
 	for _, n := range []string{"garbage", "frame-short", "frame-garbage", "frame-negative", "frame-maxint", "frame-over-limit", "frame-64k-short", "half-prefix", "frame1+half-prefix", "frame1+frame-garbage", "pb", "json"} {
 		for _, k := range []string{"CS", "SS", "BD"} {
 			r := refStream(k, body(n))
@@ -380,10 +392,23 @@ func selfCheck() error {
 
 func main() {
 	debug.SetMemoryLimit(3 << 30)
+	if isSchedChild() {
+		os.Exit(schedChildMain())
+	}
 	rep := vlib.NewReporter(prop)
 	if err := selfCheck(); err != nil {
 		fmt.Fprintln(os.Stderr, "INCONCLUSIVE:", err)
 		os.Exit(2)
+	}
+	if err := selfCheckSched(); err != nil {
+		fmt.Fprintln(os.Stderr, "INCONCLUSIVE:", err)
+		os.Exit(2)
+	}
+	if exe, err := os.Executable(); err != nil {
+		fmt.Fprintln(os.Stderr, "INCONCLUSIVE: cannot find my own binary:", err)
+		os.Exit(2)
+	} else {
+		selfExe = exe
 	}
 	if p := common.Arg("replay"); p != "" {
 		os.Exit(replay(p))
@@ -442,6 +467,10 @@ func main() {
 	// JSON == protobuf
 	eq := runEquiv(rep)
 
+	// several requests on one server: sequences and overlaps (sched.go)
+	isolatedS := time.Since(start).Seconds()
+	sc := runSched(rep)
+
 	var classNames []string
 	for k := range samplesByClass {
 		classNames = append(classNames, k)
@@ -453,9 +482,10 @@ func main() {
 		samples = append(samples, map[string]interface{}{"class": k, "request": describe(s.Case), "observed": s.Observed})
 	}
 	samples = append(samples, eq.samples...)
-	if len(samples) > 40 {
-		samples = samples[:40]
+	if len(samples) > 34 {
+		samples = samples[:34]
 	}
+	samples = append(samples, sc.samples...)
 
 	rule := "request grammar = cfg{srv, mux(HandleServices), srv+/api base+interceptors, mux+/api base+interceptors} x path{4 registered methods (one per kind), 14-15 unregistered/non-canonical} x method{POST,GET,HEAD,PUT,DELETE,OPTIONS,PATCH,post,CONNECT} x Content-Type{" + fmt.Sprint(len(cts)) + " strings} x header set{" + fmt.Sprint(len(hdrs)) + "} x body{" + fmt.Sprint(len(bodies)) + "}; " +
 		"each request is served by the real handler tree on a recorder and judged by a reference function of the literal request. "
@@ -465,12 +495,26 @@ func main() {
 		rule += fmt.Sprintf("Quick tier: NOT the full product (%d requests) but, around the plain valid request of each of the 4 method kinds, every single-axis sweep and every two-axis sweep (%d requests; pairwise-complete: every pair of values of any two axes occurs in some request). ", grammarSize, enumerated)
 	}
 	rule += "A request is non-trivial when it addresses a registered method, i.e. reaches the gatekeeping code of handleMethod/handleStream (requests to unregistered paths only exercise the mux); distinct by (cfg,path,method,content type,header set,body). " +
-		"Plus the JSON==protobuf comparison: message{9} x JSON rendering{2} x JSON content type{3} x header set{3} x cfg{4}, each against the protobuf encoding of the same message (all enumerated in both tiers; counted in evaluations, and in distinct_nontrivial when both requests were dispatched)."
+		"Plus the JSON==protobuf comparison: message{9} x JSON rendering{2} x JSON content type{3} x header set{3} x cfg{4}, each against the protobuf encoding of the same message (all enumerated in both tiers; counted in evaluations, and in distinct_nontrivial when both requests were dispatched). " +
+		"Plus SEVERAL REQUESTS ON ONE SERVER (sequences and overlaps): k = 1..3 requests of a pool, served by one fresh server in one fresh process (GOMAXPROCS(1), collector off) under a word over S_i (start request i, run it until its park-th ResponseWriter call WriteHeader/Write/Flush blocks on a gate, or to its end) and F_i (open the gate, run it to its end) with S_0<S_1<.. and S_i<F_i: 1/3/15 words for k=1/2/3, the first being the plain sequence; the pool is crossed with itself, so every order occurs. " +
+		"Pool = target kind{U,CS,SS,BD} x Content-Type{unary,stream,json,+charset variants,text/plain} with a body valid for that codec (every listed content type meets a kind that supports it and kinds that do not) + 18 requests differing on one other axis (sizes of the reply: same/longer/shorter, errors with details, undecodable bodies, GET, header sets, unknown method); overlapped pairs over 16 of them (JSON and protobuf unary calls of equal and different reply sizes, failing calls, a refused call, echoed metadata, one stream per kind), triples over 4 (3 JSON sizes + protobuf). Blocks enumerated completely: " + strings.Join(sc.blocks, "; ") + ". " +
+		"Every reply of every case is judged by the same reference function as an isolated request (a request judged wrong alone is reported under its isolated fingerprint; a finding of a case that a simpler, already reported case explains - fewer requests with the word projected onto them, the same requests one after the other, first park point, first configuration - is not reported again). Each overlapped case is run in two processes and the outputs must be byte-identical, otherwise the run is INCONCLUSIVE. " +
+		"Such a case counts in evaluations once; in distinct_nontrivial when it is a sequence of >= 2 requests that all address registered methods, or an overlapped word in which some request was measured parked on its gate while a step of another request ran (distinct by cfg, requests, park point, word)."
+	if !exhaustive {
+		rule += " Quick tier: the dimensions cfg and park point are not crossed with the full pools but swept over 4-request pools (blocks above); thorough crosses them and adds the sequences of 2 over every Content-Type string of the grammar."
+	}
 
-	fmt.Printf("C11: %d requests (+%d JSON/protobuf pairs) in %.1fs; grammar size %d; classes: %v; notes: %v\n", evals, eq.evals, time.Since(start).Seconds(), grammarSize, classes, notes)
+	fmt.Printf("C11: %d requests (+%d JSON/protobuf pairs) in %.1fs; grammar size %d; classes: %v; notes: %v\n", evals, eq.evals, isolatedS, grammarSize, classes, notes)
+	fmt.Printf("C11: %d cases of several requests on one server (%d overlapped, each run twice; %d processes) in %.1fs; %v; %v\n", sc.cases, sc.overlappedCases, sc.childRuns, time.Since(start).Seconds()-isolatedS, sc.blocks, sc.classes)
 	os.Exit(rep.Finish("exploration", map[string]interface{}{
-		"evaluations":         evals + eq.evals,
-		"distinct_nontrivial": len(nontrivial) + eq.nontrivial,
+		"evaluations":         evals + eq.evals + sc.cases,
+		"distinct_nontrivial": len(nontrivial) + eq.nontrivial + sc.nontrivial,
+		"sched_cases":         sc.cases,
+		"sched_processes":     sc.childRuns,
+		"sched_overlapped":    sc.overlappedCases,
+		"sched_nontrivial":    sc.nontrivial,
+		"sched_blocks":        sc.blocks,
+		"sched_shapes":        sc.classes,
 		"rule":                rule,
 		"samples":             samples,
 		"exhaustive":          exhaustive,
@@ -481,6 +525,8 @@ func main() {
 		"notes":               mergeNotes(notes, eq.notes),
 	}, []string{
 		"net/http's connection handling is not exercised: requests are built literally and served on httptest.ResponseRecorder (no network)",
+		"overlapping requests: a slow peer is modelled by a ResponseWriter whose n-th call blocks before consuming anything; interleavings are those of two steps per request (up to the gate / from the gate to the end), i.e. a request is preempted only inside its ResponseWriter, not at arbitrary instructions (races inside the library between two running requests are not explored; there is no shared mutable state in the unchanged server for them to race on)",
+		"several requests on one server: each case starts from a fresh process, so the state a case can depend on is the one its own requests create; histories longer than 3 requests are only met by the isolated sweep, where one server per configuration and worker serves all requests in enumeration order",
 		"handlers are well-behaved (propagate receive/decode errors, echo only x-echo* request metadata into response headers and trailers)",
 		"Content-Type strings that name a supported type in a different spelling (case, parameters, malformed parameters), unpadded base64 in -bin headers and GRPC-Timeout values outside the wire grammar may be refused (415/400, no application code) or accepted: the statement does not settle them",
 		"error details of a unary JSON request are accepted in either the documented encoding (base64 of a binary Any) or the request's codec (base64 of a JSON Any); the latter is counted under notes",
@@ -508,6 +554,11 @@ func replay(p string) int {
 	if err := common.LoadReplay(p, &probe); err != nil {
 		fmt.Fprintln(os.Stderr, "INCONCLUSIVE: cannot read replay file:", err)
 		return 2
+	}
+	if probe.Kind == "sched" {
+		var c SchedCase
+		common.LoadReplay(p, &c)
+		return replaySched(p, &c)
 	}
 	if probe.Kind == "equiv" {
 		var c EquivCase
